@@ -45,39 +45,65 @@ def _interp(ctx):
     key = CLS + ".get_measurement"
     fn = ctx.repo.get(key); ctx.analysed(key)
     where = ctx.repo.where(key, fn)
-    KIND.update({"f": "pos", "q": "real", "T": "complex", "Tr": "real"})
+    KIND.update({"q": "real", "j": "nat", "nfb": "nat"})
+    from ..symalg import ARRAY_KIND, mk_idx, I_
+    ARRAY_KIND["fgrid"] = "real"
+    n = X.var("nfb")
     for is_complex in (True, False):
         I = Interp(ctx.repo)
-        tgt = X.var("T") if is_complex else X.var("Tr")
+        tname = "Tc" if is_complex else "Tr"
+        ARRAY_KIND[tname] = "complex" if is_complex else "real"
+        tgt = ArrParam(tname, kind="complex" if is_complex else "real", shape=(n,))
+        fgrid = ArrParam("fgrid", shape=(n,))
 
-        def lib(I_, name, args, kw, st, n, is_complex=is_complex):
+        def lib(I_x, name, args, kw, st, node, is_complex=is_complex):
             if name == "numpy.iscomplexobj": return is_complex
             if name == "numpy.interp":
-                if len(args) != 3 or any(to_x(a) is None for a in args): return Opaque("np.interp arguments")
-                return mk_fn("interp", [to_x(a) for a in args], "real")
+                pos = list(args)
+                if len(pos) < 3: return Opaque("np.interp arguments")
+                if kw.get("period", pos[5] if len(pos) > 5 else None) is not None: return Mismatch("np.interp(period=...) wraps the abscissa instead of clamping")
+                x, xp, fp = pos[:3]
+                XP, FP = as_arr(xp), as_arr(fp)
+                if to_x(x) is None or XP is None or FP is None or XP.ndim != 1 or FP.ndim != 1: return Opaque("np.interp arguments")
+                if not XP.axes[0][1].eq(FP.axes[0][1]): return Mismatch("np.interp: abscissa and ordinate arrays of different length")
+                # L12: without left/right np.interp clamps to fp[0] / fp[-1]; an explicit boundary value must be that very sample
+                for side, v, ix in (("left", kw.get("left", pos[3] if len(pos) > 3 else None), X.const(0)),
+                                    ("right", kw.get("right", pos[4] if len(pos) > 4 else None), FP.axes[0][1] - 1)):
+                    if v is None: continue
+                    vx = to_x(v)
+                    own = to_x(arr_index(FP, ix))
+                    if vx is None or own is None: return Opaque(f"np.interp {side}= value not recognised")
+                    if not vx.eq(own):
+                        return Mismatch(f"np.interp(..., {side}={vx!r}): outside the grid the value is not clamped to the interpolated array's own {'first' if side == 'left' else 'last'} sample ({own!r})")
+                j = X.var("j")
+                return mk_fn("interp", [to_x(x), to_x(arr_index(XP, j)), to_x(arr_index(FP, j))], "real")
             if name == "numpy.isscalar": return Opaque("isscalar")
             return NotImplemented
         I.hooks["lib"] = lib
         me = Obj(CLS)
 
-        def hook(kind, o, attr, v, st, tgt=tgt):
+        def hook(kind, o, attr, v, st, tgt=tgt, fgrid=fgrid):
             if kind == "getattr":
-                if attr == "f": return X.var("f")
+                if attr == "f": return fgrid
                 return tgt
             return NotImplemented
         me.hook = hook
         st = St()
         r = I.call_func(Func(key, fn), [me, X.var("q"), "anything"], {}, st, None)
         c = f"{key}[{'complex' if is_complex else 'real'} quantity]"
-        q, f = X.var("q"), X.var("f")
+        q = X.var("q"); j = X.var("j")
+        fj = mk_idx("fgrid", [j], "real"); tj = mk_idx(tname, [j], "complex" if is_complex else "real")
         if is_complex:
-            want = mk_fn("interp", [q, f, tgt.real()], "real") + X(__import__("sa.symalg", fromlist=["I_"]).I_) * mk_fn("interp", [q, f, tgt.imag()], "real")
+            want = mk_fn("interp", [q, fj, tj.real()], "real") + X(I_) * mk_fn("interp", [q, fj, tj.imag()], "real")
         else:
-            want = mk_fn("interp", [q, f, tgt], "real")
+            want = mk_fn("interp", [q, fj, tj], "real")
+        bad = next((l for _, l in pv_leaves(r) if isinstance(l, Mismatch)), None)
+        if bad is not None:
+            ctx.violated("R2-interpolation", c, bad.why, where); continue
         if is_opaque(r) or isinstance(r, PV) or to_x(r) is None:
             ctx.ob("R2-interpolation", c, UNKNOWN, f"result not recognised: {r!r}"[:200], where); continue
         ctx.compare("R2-interpolation", c, to_x(r), want, where,
-                    detail="np.interp over the result's own frequency grid" + (", real and imaginary parts separately" if is_complex else ""))
+                    detail="np.interp over the result's own frequency grid, clamped to the array's own end samples" + (", real and imaginary parts separately" if is_complex else ""))
 
 
 def _reconstruction(ctx):
